@@ -47,12 +47,16 @@ def σexp (m : RBMap) (k : String) : RExp :=
   | none => .lit .null
 
 /-- den's environment (values) against the static environment (resolved expressions):
-every value is the run-time evaluation of the resolved expression at its declared type -/
-structure EnvRel (st : StructTable) (F : Nat) (ρ : Store) (env : Env) (sf sb : RBMap) : Prop where
+every value is the run-time evaluation of the resolved expression at its declared type, in
+every fork assignment of the set `Fs` (plain programs: only the empty one; with map calls:
+all — the resolved expressions of an environment are closed: every reference to a forked
+node stands below the `fork` annotation that selects its fork) -/
+structure EnvRel (st : StructTable) (F : Nat) (ρ : Store) (Fs : ForkAssign → Prop) (env : Env)
+    (sf sb : RBMap) : Prop where
   hself : ∀ p, HasTyR st (env.selfTy p) (σexp sf p) ∧
-    env.selfVal.field p = evalRT st F ρ [] (env.selfTy p) (σexp sf p)
+    ∀ f, Fs f → env.selfVal.field p = evalRT st F ρ f (env.selfTy p) (σexp sf p)
   hcall : ∀ c, HasTyR st (env.callTy c) (σexp sb c) ∧
-    env.callVal c = evalRT st F ρ [] (env.callTy c) (σexp sb c)
+    ∀ f, Fs f → env.callVal c = evalRT st F ρ f (env.callTy c) (σexp sb c)
   hdom : ∀ c, (env.calls.lookup c).isSome = (sb.lookup c).isSome
 
 theorem bpR_lit_null (fld : String) (j : J) : bpR fld (.lit j) = .lit .null := by simp [bpR]
@@ -87,18 +91,19 @@ theorem mem_resolveRefsFields (self sib : RBMap) :
 
 section E
 variable (st : StructTable) (hst : StructsOk st) (F : Nat) (hF : NarrowFix st F) (ρ : Store)
-  (env : Env) (self sib : RBMap) (hrel : EnvRel st F ρ env self sib)
-include hst hF hrel
+  (Fs : ForkAssign → Prop) (env : Env) (self sib : RBMap) (hrel : EnvRel st F ρ Fs env self sib)
+  (f : ForkAssign) (hf : Fs f)
+include hst hF hrel hf
 
 mutual
 theorem eval_resolveRefs :
     ∀ (e : Exp) (t : Ty), HasTy st env.selfTy env.callTy t e →
-      narrow st F t (eval st env e) = evalRT st F ρ [] t (resolveRefs self sib e) ∧
+      narrow st F t (eval st env e) = evalRT st F ρ f t (resolveRefs self sib e) ∧
       HasTyR st t (resolveRefs self sib e)
   | .lit j, t, h => by
     simp only [HasTy] at h
     simp only [eval, resolveRefs]
-    have := narrow_evalRT st hst F hF ρ [] (.lit j) t t (by simpa [HasTyR] using h) (Sub.refl t)
+    have := narrow_evalRT st hst F hF ρ (.lit j) t t f (by simpa [HasTyR] using h) (Sub.refl t)
     simpa [evalRT] using this
   | .arr xs, t, h => by
     obtain ⟨b, m, a⟩ := t
@@ -167,23 +172,23 @@ theorem eval_resolveRefs :
     simp only [HasTy] at h
     obtain ⟨hp, hs⟩ := h
     obtain ⟨hty, hval⟩ := hrel.hself p
-    have h1 := projPath_evalRT st hst F hF ρ [] path (σexp self p) (env.selfTy p) hty hp
-    have h2 := narrow_evalRT st hst F hF ρ [] _ _ t h1.2 hs
+    have h1 := projPath_evalRT st hst F hF ρ f path (σexp self p) (env.selfTy p) hty hp
+    have h2 := narrow_evalRT st hst F hF ρ _ _ t f h1.2 hs
     rw [resolveRefs_self]
-    simp only [eval, hval, h1.1]
+    simp only [eval, hval f hf, h1.1]
     exact h2
   | .ref c path, t, h => by
     simp only [HasTy] at h
     obtain ⟨hp, hs⟩ := h
     obtain ⟨hty, hval⟩ := hrel.hcall c
-    have h1 := projPath_evalRT st hst F hF ρ [] path (σexp sib c) (env.callTy c) hty hp
-    have h2 := narrow_evalRT st hst F hF ρ [] _ _ t h1.2 hs
+    have h1 := projPath_evalRT st hst F hF ρ f path (σexp sib c) (env.callTy c) hty hp
+    have h2 := narrow_evalRT st hst F hF ρ _ _ t f h1.2 hs
     rw [resolveRefs_ref]
-    simp only [eval, hval, h1.1]
+    simp only [eval, hval f hf, h1.1]
     exact h2
 theorem eval_resolveRefsList :
     ∀ (es : List Exp) (t : Ty), HasTyList st env.selfTy env.callTy t es →
-      (evalList st env es).map (narrow st F t) = evalRTList st F ρ [] t (resolveRefsList self sib es) ∧
+      (evalList st env es).map (narrow st F t) = evalRTList st F ρ f t (resolveRefsList self sib es) ∧
       HasTyRList st t (resolveRefsList self sib es)
   | [], _, _ => by simp [evalList, resolveRefsList, evalRTList, HasTyRList]
   | e :: es, t, h => by
@@ -195,7 +200,7 @@ theorem eval_resolveRefsList :
 theorem eval_resolveRefsFields :
     ∀ (kvs : List (String × Exp)) (t : Ty), HasTyFields st env.selfTy env.callTy t kvs →
       (evalFields st env kvs).map (fun kv => (kv.1, narrow st F t kv.2))
-        = evalRTFields st F ρ [] t (resolveRefsFields self sib kvs) ∧
+        = evalRTFields st F ρ f t (resolveRefsFields self sib kvs) ∧
       HasTyRFields st t (resolveRefsFields self sib kvs)
   | [], _, _ => by simp [evalFields, resolveRefsFields, evalRTFields, HasTyRFields]
   | (k, e) :: es, t, h => by
@@ -207,7 +212,7 @@ theorem eval_resolveRefsFields :
 theorem eval_resolveRefsMembers (ps : List Param) :
     ∀ (kvs : List (String × Exp)), HasTyMembers st env.selfTy env.callTy ps kvs →
       ∀ (k : String) (e : Exp), (k, e) ∈ kvs → ∀ (p : Param), ps.find? (fun q => q.name == k) = some p →
-        narrow st F p.ty (eval st env e) = evalRT st F ρ [] p.ty (resolveRefs self sib e) ∧
+        narrow st F p.ty (eval st env e) = evalRT st F ρ f p.ty (resolveRefs self sib e) ∧
         HasTyR st p.ty (resolveRefs self sib e)
   | [], _, _, _, h, _, _ => by simp at h
   | (k', e') :: es, hm, k, e, h, p, hf => by
@@ -224,10 +229,10 @@ end
 
 /-- E followed by L0: what `resolveExp` (resolveRefs, then filter) produces -/
 theorem eval_resolveExp (e : Exp) (t : Ty) (h : HasTy st env.selfTy env.callTy t e) :
-    narrow st F t (eval st env e) = evalRT st F ρ [] t (filterR st t (resolveRefs self sib e)) ∧
+    narrow st F t (eval st env e) = evalRT st F ρ f t (filterR st t (resolveRefs self sib e)) ∧
     HasTyR st t (filterR st t (resolveRefs self sib e)) := by
-  have h1 := eval_resolveRefs st hst F hF ρ env self sib hrel e t h
-  have h2 := evalRT_filterR st hst F ρ [] (resolveRefs self sib e) t h1.2
+  have h1 := eval_resolveRefs st hst F hF ρ Fs env self sib hrel f hf e t h
+  have h2 := evalRT_filterR st hst F ρ f (resolveRefs self sib e) t h1.2
   exact ⟨h1.1.trans h2.1.symm, h2.2⟩
 
 end E
